@@ -15,10 +15,10 @@ CONSTANTS
   FaultKinds <- FaultsNoMiss
   FinFirst = TRUE
   RvCheck = TRUE
-  FixDeleting = FALSE
+  FixDeleting = TRUE
   FixMiss = FALSE
   FixStale = FALSE
 VIEW view
 ACTION_CONSTRAINT Emit
 CHECK_DEADLOCK FALSE
-INVARIANTS StepProps Repaired FinBeforeSync
+INVARIANTS StepProps Repaired FinBeforeSync DeletingTruth
